@@ -1290,7 +1290,7 @@ func ruleGlobalInitOnly(c *Ctx) []Obligation {
 
 var readCuts = map[string]string{
 	"yang.ToEntry":               "after Process every node handed to ToEntry by the read API is in the entry cache: the call is a mutex-guarded cache hit (first statement of ToEntry); the conversion path is Process-time only",
-	"yang.(*Modules).FindModule": "after a clean Process every import is loaded and linked, so the map lookups in FindModule succeed and the disk-read arm is dead",
+	"yang.(*Modules).FindModule": "after a clean Process every import of a module, and of every submodule a module includes, is loaded and linked, so the map lookups in FindModule succeed and the disk-read arm is dead for queries on their trees. Not so for a loaded submodule revision that no module includes: its imports are not linked, and a query that resolves one of its prefixes can read a file — that hole is the recorded finding LOAD.AFTERLINK (hunt/h1/C18/finding2), which this cut does not hide: it is reported there",
 }
 
 var readJustified = map[string]string{}
